@@ -1199,7 +1199,18 @@ impl Server {
         
         // Execute commands
         let mut results = Vec::new();
+        let mut db_index = db_index;
         for cmd_parts in commands_to_execute.iter() {
+            // A queued SELECT switches the database of this connection: the rest of the batch
+            // (and the connection afterwards) runs in the newly selected one
+            let is_select = matches!(cmd_parts.first(), Some(RespFrame::BulkString(Some(name))) if name.eq_ignore_ascii_case(b"SELECT"));
+            if is_select {
+                results.push(self.handle_select(cmd_parts, conn_id)?);
+                if let Some(selected) = self.connections.with_connection(conn_id, |conn| conn.db_index) {
+                    db_index = selected;
+                }
+                continue;
+            }
             match self.process_command_parts(&cmd_parts, db_index) {
                 // A blocking pop queued in a transaction finds nothing to pop: inside MULTI/EXEC it
                 // never blocks but answers nil at once. (It had registered the pseudo connection 0
